@@ -63,7 +63,11 @@ def sp_us(eng, st, n):
 
 
 def sp_micros(eng, st, t):
-    return V.vint(eng.as_sym(t).d)
+    t = eng.as_sym(t)
+    from pyvc.values import OptS
+    if isinstance(t.shape, OptS):
+        t = t.d[1]
+    return V.vint(t.d)
 
 
 def sp_real(eng, st, x):
@@ -298,6 +302,27 @@ def sp_opaque(eng, st, name, *vals):
     return V.vbool(f(*ls))
 
 
+def sp_forall_key_absent(eng, st, m):
+    """The mapping has no key at all."""
+    m = eng.as_sym(m)
+    k = z3.Const(V.fresh_name("mk"), m.shape.key.sorts()[0])
+    return V.vbool(z3.ForAll([k], z3.Not(z3.Select(m.d[0], k))))
+
+
+def sp_fn_result(eng, st, name, *args):
+    """The (deterministic) result of the function under contract `name` on the given arguments."""
+    c = eng.reg.by_name(name.d.as_string())
+    shapes = [sh for p, sh in c.params.items() if not hasattr(sh, "get")]
+    vals = []
+    for a, sh in zip(args, shapes):
+        a = eng.as_sym(a)
+        from pyvc.values import OptS
+        if isinstance(a.shape, OptS) and not isinstance(sh, OptS):
+            a = a.d[1]          # contract expressions are total: the value if present
+        vals.append(V.coerce(a, sh))
+    return eng.pure_result(c, vals)
+
+
 def sp_callee_ghost(eng, st, name):
     """Ghost result `name` of the most recent contract call (for threading ghost results up)."""
     return eng.last_ghost_results[name.d.as_string()]
@@ -318,6 +343,8 @@ def register(reg):
     f["append"] = sp_append
     f["empty_ints"] = sp_empty_ints
     f["slice"] = sp_slice
+    f["forall_key_absent"] = sp_forall_key_absent
+    f["fn_result"] = sp_fn_result
     f["callee_ghost"] = sp_callee_ghost
     f["opaque"] = sp_opaque
     f["alt"] = sp_alt
